@@ -62,10 +62,15 @@ fn would_grant(o: &Oracle, op: &Op) -> bool {
 }
 
 struct Run<'a> { oracle: Oracle, held: [Option<Op>; 3], fails: Vec<Fail>, executed: Vec<ALine>, driver: Option<&'a mut Driver>, owned: bool, steps: usize, pend: usize, ready: usize,
-    not_woken: Vec<String>, ops: BTreeMap<String, usize> }
+    not_woken: Vec<String>, ops: BTreeMap<String, usize>,
+    /// (vmem) a granted window of this history crossed the physical end of the storage (now or earlier)
+    seam: bool }
 
 impl<'a> Run<'a> {
-    fn fail(&mut self, kind: &'static str, tags: Vec<&'static str>, line: &ALine, detail: String) { self.fails.push(Fail { kind, tags, step: self.executed.len(), line: line.text(), detail }); }
+    fn fail(&mut self, kind: &'static str, tags: Vec<&'static str>, line: &ALine, detail: String) {
+        let detail = if cfg!(feature = "vmem") && self.seam { format!("{detail} [window crosses the physical end: index+count > len]") } else { detail };
+        self.fails.push(Fail { kind, tags, step: self.executed.len(), line: line.text(), detail });
+    }
 
     fn compare_obs(&mut self, line: &ALine, obs: &Obs, exp_drops: &[u64], model_line: Option<String>, mine: String) {
         for r in ROLES { if self.oracle.live[r.i()] && obs.idx[r.i()] != self.oracle.idx(r) { self.fail("oracle", vec!["C14", "C04"], line, format!("index of {:?}: expected {}, got {}", r, self.oracle.idx(r), obs.idx[r.i()])); } }
@@ -92,6 +97,10 @@ impl<'a> Run<'a> {
 
     fn exec<B: MutRB<Item = T> + 'static, T: AsyncCopyApi, const W: bool>(&mut self, s: &mut ASess<B, T, W>, line: ALine) {
         self.steps += 1;
+        if cfg!(feature = "vmem") {
+            let op = match &line { ALine::Poll(o) | ALine::Hold(_, o) | ALine::Sync(o) => Some(o.clone()), ALine::Repoll(r) => self.held[r.i()].clone(), _ => None };
+            if let Some(op) = op { if mrb_harness::gen::straddles(&self.oracle, &op) { self.seam = true; } }
+        }
         *self.ops.entry(match &line { ALine::Poll(o) | ALine::Hold(_, o) => format!("poll:{}", o.kind()), ALine::Repoll(_) => "repoll".into(), ALine::DropFut(_) => "dropfut".into(), ALine::Sync(o) => o.kind().into() }).or_insert(0) += 1;
         match &line {
             ALine::Poll(op) | ALine::Hold(_, op) => {
@@ -247,7 +256,7 @@ fn run_case<'a>(c: &Case, mut src: Src, driver: Option<&'a mut Driver>, stop: bo
     let len = if c.heap { c.len } else { match c.len { 2 | 3 | 4 | 5 => c.len, _ => 8 } };
     let vals: Vec<u64> = if c.owned { (0..len).map(|_| tok::fresh_id()).collect() } else { (0..len as u64).map(|i| 100 + i).collect() };
     let oracle = Oracle::new(vals.clone(), c.has_w, c.heap, c.owned);
-    let mut run = Run { oracle, held: [None, None, None], fails: vec![], executed: vec![], driver, owned: c.owned, steps: 0, pend: 0, ready: 0, not_woken: vec![], ops: BTreeMap::new() };
+    let mut run = Run { oracle, held: [None, None, None], fails: vec![], executed: vec![], driver, owned: c.owned, steps: 0, pend: 0, ready: 0, not_woken: vec![], ops: BTreeMap::new(), seam: false };
     if let Some(d) = run.driver.as_mut() {
         let a = d.ask(&format!("{} {} {} {} {} {}", if cfg!(feature = "vmem") { "initvm" } else { "init" }, len, c.has_w as u8, c.heap as u8, c.owned as u8, vals.iter().map(|v| v.to_string()).collect::<Vec<_>>().join(" ")));
         if !a.starts_with("ok ") { run.fails.push(Fail { kind: "model", tags: vec![], step: 0, line: "init".into(), detail: a }); }
